@@ -316,13 +316,13 @@ Proof.
 Qed.
 
 (* -- directories -- *)
-Lemma dir_loop_ok : forall (which : mname) fd self u l m,
-  (which = M__is_accepted /\ fd = DirectoryFilter___is_accepted /\ py_getattr self A__accepted = Ok (pv_strs l)) \/
-  (which = M__is_rejected /\ fd = DirectoryFilter___is_rejected /\ py_getattr self A__rejected = Ok (pv_strs l)) ->
+Lemma dir_loop_ok : forall (which : mname) self u l m,
+  (which = M__is_accepted /\ py_getattr self A__accepted = Ok (pv_strs l)) \/
+  (which = M__is_rejected /\ py_getattr self A__rejected = Ok (pv_strs l)) ->
   (m >= 2)%nat ->
   returns (runf m C_DirectoryFilter which [self; pv_urlinfo u]) (dir_match L l u).
 Proof.
-  intros which fd self u l m Hw Hm; fuel m. unfold returns, dir_match.
+  intros which self u l m Hw Hm; fuel m. unfold returns, dir_match.
   assert (Hloop : forall step,
             (forall E x, E 1 = Some (pv_urlinfo u) ->
                step E (PStr x) = if l_fnmatchcase L (slashed (u_path u)) (slashed x)
@@ -336,17 +336,23 @@ Proof.
     - rewrite Hstep by exact HE. destruct (l_fnmatchcase L (slashed (u_path u)) (slashed x)); cbn [orb].
       + eexists; reflexivity.
       + apply IH. unfold upd. cbn. exact HE. }
-  destruct Hw as [(-> & -> & Hs)|(-> & -> & Hs)].
+  destruct Hw as [(-> & Hs)|(-> & Hs)].
   - enter; unfold DirectoryFilter___is_accepted. red1. rewrite Hs. unfold pv_strs. red1.
-    match goal with |- context [for_loop ?st _ ?E] =>
-      destruct (Hloop st) with (l := l) (E := E) as (E' & ->); [| reflexivity |] end.
+    match goal with |- context [for_loop ?st _ ?E0] =>
+      assert (Hst : forall E x, E 1 = Some (pv_urlinfo u) ->
+               st E (PStr x) = if l_fnmatchcase L (slashed (u_path u)) (slashed x)
+                               then Ok (upd E 2 (PStr x), Some (PBool true)) else Ok (upd E 2 (PStr x), None));
+      [| destruct (Hloop st Hst l E0 eq_refl) as (E' & ->)] end.
     + intros E x HE. red1. rewrite HE. unfold pv_urlinfo at 1, mk_obj. red1.
       rewrite is_subdir_wild_ok by lia. red1.
       destruct (l_fnmatchcase L (slashed (u_path u)) (slashed x)); reflexivity.
     + destruct (existsb _ l); eexists; split; reflexivity.
   - enter; unfold DirectoryFilter___is_rejected. red1. rewrite Hs. unfold pv_strs. red1.
-    match goal with |- context [for_loop ?st _ ?E] =>
-      destruct (Hloop st) with (l := l) (E := E) as (E' & ->); [| reflexivity |] end.
+    match goal with |- context [for_loop ?st _ ?E0] =>
+      assert (Hst : forall E x, E 1 = Some (pv_urlinfo u) ->
+               st E (PStr x) = if l_fnmatchcase L (slashed (u_path u)) (slashed x)
+                               then Ok (upd E 2 (PStr x), Some (PBool true)) else Ok (upd E 2 (PStr x), None));
+      [| destruct (Hloop st Hst l E0 eq_refl) as (E' & ->)] end.
     + intros E x HE. red1. rewrite HE. unfold pv_urlinfo at 1, mk_obj. red1.
       rewrite is_subdir_wild_ok by lia. red1.
       destruct (l_fnmatchcase L (slashed (u_path u)) (slashed x)); reflexivity.
@@ -358,14 +364,14 @@ Ltac dir_step u := first
   | rewrite truthy_pv_strs
   | match goal with |- context [run _ filter_prog ?m C_DirectoryFilter M__is_accepted [?s; ?ui]] =>
        let v := fresh "v" in let Hv := fresh "Hv" in let E := fresh "E" in
-       edestruct (dir_loop_ok M__is_accepted _ s u) with (m := m) as (v & E & Hv);
-         [left; split; [reflexivity|split; [reflexivity|reflexivity]] | lia | ];
-       fold (pv_urlinfo u) in *; unfold pv_urlinfo, mk_obj in E; rewrite E; clear E end
+       edestruct (dir_loop_ok M__is_accepted s u) with (m := m) as (v & E & Hv);
+         [left; split; reflexivity | lia | ];
+       unfold pv_urlinfo, mk_obj in E; cbn [assoc_attr] in E; rewrite E; clear E end
   | match goal with |- context [run _ filter_prog ?m C_DirectoryFilter M__is_rejected [?s; ?ui]] =>
        let v := fresh "v" in let Hv := fresh "Hv" in let E := fresh "E" in
-       edestruct (dir_loop_ok M__is_rejected _ s u) with (m := m) as (v & E & Hv);
-         [right; split; [reflexivity|split; [reflexivity|reflexivity]] | lia | ];
-       unfold pv_urlinfo, mk_obj in E; rewrite E; clear E end
+       edestruct (dir_loop_ok M__is_rejected s u) with (m := m) as (v & E & Hv);
+         [right; split; reflexivity | lia | ];
+       unfold pv_urlinfo, mk_obj in E; cbn [assoc_attr] in E; rewrite E; clear E end
   | use_truthy
   | mp_split ].
 
@@ -375,6 +381,562 @@ Proof.
   intros a rj u r m Hm; fuel m. unfold test_of, directory_spec; unf.
   enter; unfold DirectoryFilter__test.
   destruct a as [[|x la]|], rj as [[|y lr]|]; repeat (dir_step u); reflexivity.
+Qed.
+
+(* -- file name suffixes -- *)
+Lemma filename_match_ok : forall self l name m, (m >= 1)%nat ->
+  returns (runf m C_BackwardFilenameFilter M_match [self; pv_strs l; PStr name])
+          (nonempty name && name_match L l name).
+Proof.
+  intros self l name m Hm; fuel m. unfold returns, name_match, pv_strs.
+  enter; unfold BackwardFilenameFilter__match. red1.
+  destruct name as [|c s]; red1; [eexists; split; reflexivity|].
+  set (s0 := c :: s). clearbody s0.
+  match goal with |- context [for_loop ?st _ ?E] => set (step := st); set (E0 := E) end.
+  assert (H : forall l E, E 2 = Some (PStr s0) ->
+            exists E', for_loop step (map PStr l) E =
+                       Ok (E', if existsb (fun p => l_re_search L (l_fn_translate L p) s0) l
+                               then Some (PBool true) else None)).
+  { clear. induction l as [|x l IH]; intros E HE; cbn [map for_loop existsb].
+    - eexists; reflexivity.
+    - unfold step at 1. red1. rewrite HE. red1.
+      destruct (l_re_search L (l_fn_translate L x) s0); red1; [eexists; reflexivity|].
+      apply IH. red1. exact HE. }
+  destruct (H l E0 eq_refl) as (E' & ->).
+  destruct (existsb _ l); eexists; split; reflexivity.
+Qed.
+
+Ltac fname_step := first
+  [ progress red1
+  | rewrite truthy_pv_strs
+  | match goal with |- context [run _ filter_prog ?m C_BackwardFilenameFilter M_match [?s; pv_strs ?l; PStr ?n]] =>
+       let v := fresh "v" in let Hv := fresh "Hv" in let E := fresh "E" in
+       destruct (filename_match_ok s l n m ltac:(lia)) as (v & E & Hv); rewrite E; clear E end
+  | use_truthy
+  | mp_split ].
+
+Lemma BackwardFilenameFilter_ok : forall a rj u r m, (m >= 2)%nat ->
+  returns (test_of m (FFilename a rj) u r) (filename_spec L a rj u).
+Proof.
+  intros a rj u r m Hm; fuel m. unfold returns, test_of, filename_spec, file_name, slash; unf.
+  enter; unfold BackwardFilenameFilter__test. red1.
+  destruct (rsplit1_cases 47%N (u_path u)) as [(h1 & t1 & Hb)| Hb]; rewrite Hb; red1.
+  - destruct t1 as [|c t1]; red1; [eexists; split; reflexivity|].
+    set (nm := c :: t1) in *.
+    assert (Hn : nonempty nm = true) by reflexivity. clearbody nm.
+    destruct a as [[|x la]|], rj as [[|y lr]|]; repeat fname_step;
+      rewrite ?Hn in *; cbn [andb] in *; eexists; split; try reflexivity;
+      repeat use_truthy; cbn [truthy negb andb]; try reflexivity; try use_truthy; rewrite ?andb_true_r; try reflexivity.
+  - destruct (u_path u) as [|c t1]; red1; [eexists; split; reflexivity|].
+    set (nm := c :: t1) in *.
+    assert (Hn : nonempty nm = true) by reflexivity. clearbody nm.
+    destruct a as [[|x la]|], rj as [[|y lr]|]; repeat fname_step;
+      rewrite ?Hn in *; cbn [andb] in *; eexists; split; try reflexivity;
+      repeat use_truthy; cbn [truthy negb andb]; try reflexivity; try use_truthy; rewrite ?andb_true_r; try reflexivity.
+Qed.
+
+(* -- all thirteen -- *)
+Theorem filter_test_ok : forall f u r m, (m >= 3)%nat -> returns (test_of m f u r) (filter_spec L f u r).
+Proof.
+  intros [al| |fo|a rj|a rj|e p|d i|t| |hs e p lp|a rj|a rj|a rj] u r m Hm; cbn [filter_spec];
+    try (eexists; split; [first
+      [ apply SchemeFilter_ok | apply HTTPSOnlyFilter_ok | apply FollowFTPFilter_ok | apply BackwardDomainFilter_ok
+      | apply HostnameFilter_ok | apply LevelFilter_ok | apply TriesFilter_ok | apply ParentFilter_ok
+      | apply RegexFilter_ok | apply DirectoryFilter_ok ]; lia | reflexivity]).
+  - apply RecursiveFilter_ok; lia.
+  - apply SpanHostsFilter_ok; lia.
+  - apply BackwardFilenameFilter_ok; lia.
+Qed.
+
+(* ------------------------------------------------------------------ part C *)
+(* the value a filter's test returns (exists by filter_test_ok) *)
+Definition fval (m : nat) (f : filter) (u : urlinfo) (r : urlrec) : pv :=
+  match test_of m f u r with Ok v => v | Err _ => PNone end.
+Lemma fval_ok : forall f u r m, (m >= 3)%nat ->
+  test_of m f u r = Ok (fval m f u r) /\ truthy (fval m f u r) = filter_spec L f u r.
+Proof.
+  intros f u r m Hm. destruct (filter_test_ok f u r m Hm) as (v & E & Hv). unfold fval. rewrite E. auto.
+Qed.
+
+Definition fname (f : filter) : str := cls_name (filter_cls f).
+Definition passes (u : urlinfo) (r : urlrec) (f : filter) : bool := filter_spec L f u r.
+Definition fails (u : urlinfo) (r : urlrec) (f : filter) : bool := negb (filter_spec L f u r).
+Definition map_after (m : nat) (u : urlinfo) (r : urlrec) (fs : list filter) (D : list (str * pv)) : list (str * pv) :=
+  fold_left (fun d f => sset (fname f) (fval m f u r) d) fs D.
+
+Definition demux (fs : list filter) : pv := mk_obj C_DemuxURLFilter [(A__url_filters, PList (map pv_filter fs))].
+
+Definition s_verdict : str := [118; 101; 114; 100; 105; 99; 116]%N.
+Definition s_passed : str := [112; 97; 115; 115; 101; 100]%N.
+Definition s_failed : str := [102; 97; 105; 108; 101; 100]%N.
+Definition s_map : str := [109; 97; 112]%N.
+
+Definition test_info_val (m : nat) (fs : list filter) (u : urlinfo) (r : urlrec) : pv :=
+  PDict (sd [(s_verdict, PBool (forallb (passes u r) fs));
+             (s_passed, PSet (map pv_filter (List.filter (passes u r) fs)));
+             (s_failed, PSet (map pv_filter (List.filter (fails u r) fs)));
+             (s_map, PDict (sd (map_after m u r fs [])))]).
+
+Lemma length_failed_zero : forall u r fs,
+  (Z.of_nat (List.length (map pv_filter (List.filter (fails u r) fs))) =? 0)%Z = forallb (passes u r) fs.
+Proof.
+  intros u r fs. induction fs as [|f fs IH]; cbn [List.filter forallb map List.length]; [reflexivity|].
+  unfold fails at 1, passes at 1. destruct (filter_spec L f u r); cbn [negb andb]; [exact IH|].
+  cbn [map List.length]. destruct (Z.eqb_spec (Z.of_nat (S (List.length (map pv_filter (List.filter (fails u r) fs))))) 0); [lia|reflexivity].
+Qed.
+
+Lemma demux_loop : forall m u r step,
+  (m >= 3)%nat ->
+  (forall E f P F D, E 1 = Some (pv_urlinfo u) -> E 2 = Some (pv_record r) ->
+     E 3 = Some (PSet P) -> E 4 = Some (PSet F) -> E 5 = Some (PDict (sd D)) ->
+     exists E', step E (pv_filter f) = Ok (E', None) /\
+       E' 1 = Some (pv_urlinfo u) /\ E' 2 = Some (pv_record r) /\
+       E' 3 = Some (PSet (if passes u r f then P ++ [pv_filter f] else P)) /\
+       E' 4 = Some (PSet (if passes u r f then F else F ++ [pv_filter f])) /\
+       E' 5 = Some (PDict (sd (sset (fname f) (fval m f u r) D)))) ->
+  forall fs E P F D, E 1 = Some (pv_urlinfo u) -> E 2 = Some (pv_record r) ->
+     E 3 = Some (PSet P) -> E 4 = Some (PSet F) -> E 5 = Some (PDict (sd D)) ->
+     exists E', for_loop step (map pv_filter fs) E = Ok (E', None) /\
+       E' 3 = Some (PSet (P ++ map pv_filter (List.filter (passes u r) fs))) /\
+       E' 4 = Some (PSet (F ++ map pv_filter (List.filter (fails u r) fs))) /\
+       E' 5 = Some (PDict (sd (map_after m u r fs D))).
+Proof.
+  intros m u r step Hm Hstep. induction fs as [|f fs IH]; intros E P F D H1 H2 H3 H4 H5; cbn [map for_loop List.filter].
+  - exists E. rewrite !app_nil_r. auto.
+  - destruct (Hstep E f P F D H1 H2 H3 H4 H5) as (E1 & -> & G1 & G2 & G3 & G4 & G5).
+    destruct (IH E1 _ _ _ G1 G2 G3 G4 G5) as (E2 & -> & K3 & K4 & K5).
+    exists E2. split; [reflexivity|]. unfold fails, passes, map_after in *. cbn [fold_left].
+    destruct (filter_spec L f u r); cbn [negb map] in *; rewrite <- ?app_assoc in *; cbn [app] in *; auto.
+Qed.
+
+Lemma class_of_pv_filter : forall f, class_of (pv_filter f) = Ok (filter_cls f).
+Proof. reflexivity. Qed.
+
+Theorem test_info_ok : forall fs u r m, (m >= 4)%nat ->
+  runf m C_DemuxURLFilter M_test_info [demux fs; pv_urlinfo u; pv_record r] = Ok (test_info_val (pred m) fs u r).
+Proof.
+  intros fs u r m Hm; fuel m. cbn [pred]. unfold demux, mk_obj.
+  enter; unfold DemuxURLFilter__test_info. red1.
+  match goal with |- context [for_loop ?st _ ?E0] =>
+    destruct (demux_loop m u r st ltac:(lia)) with (fs := fs) (E := E0) (P := @nil pv) (F := @nil pv) (D := @nil (str * pv))
+      as (E' & -> & K3 & K4 & K5); try reflexivity end.
+  - intros E f P F D H1 H2 H3 H4 H5. red1. rewrite class_of_pv_filter. red1. rewrite H1, H2. red1.
+    destruct (fval_ok f u r m ltac:(lia)) as (Ht & Hv). unfold test_of in Ht. rewrite Ht. red1.
+    unfold lookup. red1. rewrite H5. red1. rewrite class_of_pv_filter. red1. fold (fname f). rewrite dict_set_sd. red1. rewrite Hv. unfold passes.
+    destruct (filter_spec L f u r); red1.
+    + unfold lookup. red1. rewrite H3. unfold pv_filter at 1, mk_obj at 1. red1.
+      eexists; split; [reflexivity|]. unfold upd; cbn. rewrite H1, H2, H4. auto 10.
+    + unfold lookup. red1. rewrite H4. unfold pv_filter at 1, mk_obj at 1. red1.
+      eexists; split; [reflexivity|]. unfold upd; cbn. rewrite H1, H2, H3. auto 10.
+  - red1. rewrite K3, K4, K5. red1. rewrite length_failed_zero. reflexivity.
+Qed.
+
+(* ------------------------------------------------------------------ part D *)
+Definition s_span : str := cls_name C_SpanHostsFilter.
+Definition s_filters : str := [102; 105; 108; 116; 101; 114; 115]%N.
+Definition s_redirect : str := [114; 101; 100; 105; 114; 101; 99; 116]%N.
+Definition s_nofilters : str := [110; 111; 102; 105; 108; 116; 101; 114; 115]%N.
+
+Definition is_span (f : filter) : bool := match f with FSpanHosts _ _ _ _ => true | _ => false end.
+
+(* is_only_span_hosts_failed as the code computes it *)
+Definition waiver (m : nat) (fs : list filter) (u : urlinfo) (r : urlrec) : bool :=
+  (Z.of_nat (List.length (map pv_filter (List.filter (fails u r) fs))) =? 1)%Z &&
+  match sget s_span (map_after m u r fs []) with Some v => negb (truthy v) | None => false end.
+
+Definition all_pass (fs : list filter) (u : urlinfo) (r : urlrec) : bool := forallb (passes u r) fs.
+
+Definition rule (fs : list filter) : pv := mk_obj C_FetchRule [(A__url_filter, demux fs)].
+
+Lemma only_span_ok : forall self fs u r k m, (m >= 1)%nat ->
+  runf m C_FetchRule M_is_only_span_hosts_failed [self; test_info_val k fs u r] = Ok (PBool (waiver k fs u r)).
+Proof.
+  intros self fs u r k m Hm; fuel m. unfold test_info_val, waiver.
+  enter; unfold FetchRule__is_only_span_hosts_failed. red1.
+  change [102%N; 97%N; 105%N; 108%N; 101%N; 100%N] with s_failed.
+  change [109%N; 97%N; 112%N] with s_map.
+  rewrite !dict_get_sd. cbn [sget str_eqb s_failed s_map s_verdict s_passed N.eqb Pos.eqb andb]. red1.
+  destruct (Z.of_nat (List.length (map pv_filter (List.filter (fails u r) fs))) =? 1)%Z; red1; [|reflexivity].
+  change [83%N; 112%N; 97%N; 110%N; 72%N; 111%N; 115%N; 116%N; 115%N; 70%N; 105%N; 108%N; 116%N; 101%N; 114%N] with s_span.
+  rewrite in_list_keys_sd, dict_get_sd.
+  destruct (sget s_span (map_after k u r fs [])) as [v|]; red1; reflexivity.
+Qed.
+
+Definition consult_verdict (k : nat) (fs : list filter) (u : urlinfo) (r : urlrec) (ir : pv) : bool :=
+  all_pass fs u r || (truthy ir && waiver k fs u r).
+Definition consult_reason (k : nat) (fs : list filter) (u : urlinfo) (r : urlrec) (ir : pv) : str :=
+  if all_pass fs u r then s_filters else if truthy ir && waiver k fs u r then s_redirect else s_filters.
+
+Theorem consult_ok : forall fs u r ir m, (m >= 5)%nat ->
+  runf m C_FetchRule M_consult_filters [rule fs; pv_urlinfo u; pv_record r; ir]
+  = Ok (PTuple [PBool (consult_verdict (m - 2) fs u r ir); PStr (consult_reason (m - 2) fs u r ir);
+                test_info_val (m - 2) fs u r]).
+Proof.
+  intros fs u r ir m Hm; fuel m. replace (S m - 2) with (pred m) by lia.
+  unfold rule, mk_obj, consult_verdict, consult_reason, all_pass.
+  enter; unfold FetchRule__consult_filters. red1.
+  assert (Htr : truthy (demux fs) = true) by reflexivity. rewrite Htr. red1.
+  assert (Hc : class_of (demux fs) = Ok C_DemuxURLFilter) by reflexivity. rewrite Hc. red1.
+  assert (Ht := test_info_ok fs u r m ltac:(lia)).
+  rewrite Ht. clear Ht. red1.
+  unfold test_info_val at 1.
+  change [118%N; 101%N; 114%N; 100%N; 105%N; 99%N; 116%N] with s_verdict.
+  red1. rewrite dict_get_sd. cbn [sget str_eqb s_verdict N.eqb Pos.eqb andb]. red1.
+  destruct (forallb (passes u r) fs); red1; [reflexivity|].
+  destruct (truthy ir) eqn:Hir; red1; [|repeat (progress (red1; rewrite ?Hir)); reflexivity].
+  rewrite only_span_ok by lia. red1.
+  destruct (waiver (pred m) fs u r); red1; reflexivity.
+Qed.
+
+(* what the waiver means *)
+Lemma fname_span : forall f, str_eqb s_span (fname f) = is_span f.
+Proof. intros []; reflexivity. Qed.
+
+Fixpoint last_span (fs : list filter) : option filter :=
+  match fs with
+  | [] => None
+  | f :: fs' => match last_span fs' with Some g => Some g | None => if is_span f then Some f else None end
+  end.
+
+Lemma sget_map_after : forall m u r fs D,
+  sget s_span (map_after m u r fs D) =
+  match last_span fs with Some g => Some (fval m g u r) | None => sget s_span D end.
+Proof.
+  intros m u r. induction fs as [|f fs IH]; intros D; [reflexivity|].
+  unfold map_after in *. cbn [fold_left last_span]. rewrite IH.
+  destruct (last_span fs); [reflexivity|].
+  rewrite sget_sset, fname_span. destruct (is_span f); reflexivity.
+Qed.
+
+Lemma last_span_in : forall fs g, last_span fs = Some g -> List.In g fs /\ is_span g = true.
+Proof.
+  induction fs as [|f fs IH]; cbn [last_span]; intros g H; [discriminate|].
+  destruct (last_span fs) as [g'|] eqn:E.
+  - inversion H; subst. destruct (IH g eq_refl). split; [right|]; assumption.
+  - destruct (is_span f) eqn:Es; [|discriminate]. inversion H; subst. split; [left; reflexivity|assumption].
+Qed.
+
+Lemma filter_length1 : forall (p : filter -> bool) fs g,
+  List.length (List.filter p fs) = 1 -> List.In g fs -> p g = true -> List.filter p fs = [g].
+Proof.
+  intros p fs g Hl Hin Hp.
+  assert (Hg : List.In g (List.filter p fs)) by (apply filter_In; auto).
+  destruct (List.filter p fs) as [|x [|y l]]; cbn in *; try discriminate; try lia.
+  destruct Hg as [->|[]]. reflexivity.
+Qed.
+
+(* waived  ->  exactly one filter (occurrence) failed, and it is a SpanHostsFilter *)
+Theorem waiver_sound : forall m fs u r, (m >= 3)%nat -> waiver m fs u r = true ->
+  exists g, List.filter (fails u r) fs = [g] /\ is_span g = true.
+Proof.
+  intros m fs u r Hm H. unfold waiver in H. apply andb_true_iff in H as [Hl Hs].
+  rewrite map_length in Hl. apply Z.eqb_eq in Hl.
+  rewrite sget_map_after in Hs. destruct (last_span fs) as [g|] eqn:E; [|discriminate].
+  destruct (last_span_in _ _ E) as [Hin Hsp]. exists g. split; [|exact Hsp].
+  apply filter_length1; [lia|exact Hin|].
+  unfold fails. destruct (fval_ok g u r m Hm) as (_ & Hv). rewrite <- Hv. exact Hs.
+Qed.
+
+Fixpoint span_count (fs : list filter) : nat :=
+  match fs with [] => 0 | f :: fs' => (if is_span f then 1 else 0) + span_count fs' end.
+
+Lemma last_span_unique : forall fs g, span_count fs <= 1 -> List.In g fs -> is_span g = true -> last_span fs = Some g.
+Proof.
+  induction fs as [|f fs IH]; intros g Hc Hin Hsp; [destruct Hin|]. cbn [span_count last_span] in *.
+  destruct Hin as [->|Hin].
+  - rewrite Hsp in *. destruct (last_span fs) as [g'|] eqn:E; [|reflexivity].
+    destruct (last_span_in _ _ E) as [Hin' Hsp'].
+    assert (span_count fs >= 1).
+    { clear - Hin' Hsp'. induction fs as [|x fs IH]; [destruct Hin'|]. cbn [span_count].
+      destruct Hin' as [->|Hin']; [rewrite Hsp'; lia|]. specialize (IH Hin'). lia. }
+    lia.
+  - rewrite (IH g); [reflexivity| |assumption|assumption]. destruct (is_span f); lia.
+Qed.
+
+(* with at most one SpanHostsFilter in the list (every list the builder makes), the converse holds *)
+Theorem waiver_exact : forall m fs u r, (m >= 3)%nat -> span_count fs <= 1 ->
+  waiver m fs u r = true <-> exists g, List.filter (fails u r) fs = [g] /\ is_span g = true.
+Proof.
+  intros m fs u r Hm Hc. split; [apply waiver_sound; assumption|].
+  intros (g & Hf & Hsp). unfold waiver. rewrite map_length, Hf. cbn [List.length Z.of_nat Z.eqb Pos.eqb andb Pos.of_succ_nat].
+  assert (Hin : List.In g (List.filter (fails u r) fs)) by (rewrite Hf; left; reflexivity).
+  apply filter_In in Hin as [Hin Hfl].
+  rewrite sget_map_after, (last_span_unique fs g Hc Hin Hsp).
+  destruct (fval_ok g u r m Hm) as (_ & Hv). rewrite Hv. exact Hfl.
+Qed.
+
+(* ------------------------------------------------------------------ part E *)
+(* _build_url_filters is a sequence "filters = [...]; if c1: filters.append(F1(...)); ...; return filters".
+   The statements are taken out of the GENERATED term by position, never copied. *)
+Fixpoint seq_tail (n : nat) (s : stmt) : stmt :=
+  match n with
+  | 0 => s
+  | S n' => match s with SSeq _ b => seq_tail n' b | _ => SSkip end
+  end.
+Definition seq_head (s : stmt) : stmt := match s with SSeq a _ => a | x => x end.
+Definition bbody : stmt := f_body URLFiltersSetupTask___build_url_filters.
+
+Lemma exec_seq : forall call E a b,
+  exec O call E (SSeq a b) = match exec O call E a with Ok (E', None) => exec O call E' b | r => r end.
+Proof. reflexivity. Qed.
+
+Definition args_at (E : env) (a : args) : Prop := E 2 = Some (pv_args a).
+Definition acc_at (E : env) (acc : list filter) : Prop := E 3 = Some (PList (map pv_filter acc)).
+
+Lemma truthy_pv_ostrs : forall o, truthy (pv_ostrs o) = given o.
+Proof. intros [[|x l]|]; reflexivity. Qed.
+Lemma truthy_pv_ostr : forall o, truthy (pv_ostr o) = ogiven o.
+Proof. intros [[|c s]|]; reflexivity. Qed.
+
+Ltac expose k :=
+  let t := eval vm_compute in (seq_head (seq_tail k bbody)) in
+  change (seq_head (seq_tail k bbody)) with t.
+
+Ltac build_step := first
+  [ progress red1
+  | rewrite truthy_pv_ostrs
+  | rewrite truthy_pv_ostr
+  | mp_split ].
+
+(* one "if cond: filters.append(X(...))" statement *)
+Ltac cond_append_proof k :=
+  let E := fresh "E" in let acc := fresh "acc" in let H2 := fresh "H2" in let H3 := fresh "H3" in
+  intros call a E acc H2 H3; unfold args_at, acc_at in *; pose proof H2 as H2o; unfold pv_args, mk_obj in H2;
+  expose k; red1; rewrite H2; red1;
+  repeat (first [ progress red1 | rewrite H2 | rewrite truthy_pv_ostrs | rewrite truthy_pv_ostr | mp_split ]);
+  unfold lookup; rewrite ?H2, ?H3; red1;
+  (eexists; split; [reflexivity|]; split; [unfold upd; cbn; exact H2o|]);
+  unfold upd; cbn; rewrite ?H3, ?map_app, ?app_nil_r; cbn [map]; reflexivity.
+
+Definition step_spec (k : nat) (o : args -> list filter) : Prop :=
+  forall call a E acc, args_at E a -> acc_at E acc ->
+  exists E', exec O call E (seq_head (seq_tail k bbody)) = Ok (E', None) /\ args_at E' a /\ acc_at E' (acc ++ o a).
+
+Lemma build_step2 : step_spec 2 (fun a => opt_filter (a_no_parent a) FParent).
+Proof. unfold step_spec. cond_append_proof 2. Qed.
+Lemma build_step3 : step_spec 3 (fun a => opt_filter (given (a_domains a) || given (a_exclude_domains a)) (FDomain (a_domains a) (a_exclude_domains a))).
+Proof. unfold step_spec. cond_append_proof 3. Qed.
+Lemma build_step4 : step_spec 4 (fun a => opt_filter (given (a_hostnames a) || given (a_exclude_hostnames a)) (FHostname (a_hostnames a) (a_exclude_hostnames a))).
+Proof. unfold step_spec. cond_append_proof 4. Qed.
+Lemma build_step5 : step_spec 5 (fun a => opt_filter (negb (a_tries a =? 0)%Z) (FTries (a_tries a))).
+Proof. unfold step_spec. cond_append_proof 5. Qed.
+Lemma build_step6 : step_spec 6 (fun a => opt_filter (depth_rule_present a) (FLevel (a_level a) (a_page_requisites_level a))).
+Proof. unfold step_spec, depth_rule_present. cond_append_proof 6. Qed.
+Lemma build_step7 : step_spec 7 (fun a => opt_filter (ogiven (a_accept_regex a) || ogiven (a_reject_regex a)) (FRegex (a_accept_regex a) (a_reject_regex a))).
+Proof. unfold step_spec. cond_append_proof 7. Qed.
+Lemma build_step8 : step_spec 8 (fun a => opt_filter (given (a_include_directories a) || given (a_exclude_directories a)) (FDirectory (a_include_directories a) (a_exclude_directories a))).
+Proof. unfold step_spec. cond_append_proof 8. Qed.
+Lemma build_step9 : step_spec 9 (fun a => opt_filter (given (a_accept a) || given (a_reject a)) (FFilename (a_accept a) (a_reject a))).
+Proof. unfold step_spec. cond_append_proof 9. Qed.
+
+Lemma tail_unfold : forall k, k < 10 ->
+  seq_tail k bbody = SSeq (seq_head (seq_tail k bbody)) (seq_tail (S k) bbody).
+Proof. intros k Hk. do 10 (destruct k as [|k]; [reflexivity|]). lia. Qed.
+
+Lemma build_exec : forall call a hs self, exists E',
+  exec O call (bind_args 0 [self; pv_session a hs] empty_env) bbody
+  = Ok (E', Some (PList (map pv_filter (build_spec a)))).
+Proof.
+  intros call a hs self.
+  change bbody with (seq_tail 0 bbody).
+  (* args = session.args *)
+  rewrite (tail_unfold 0) by lia. rewrite exec_seq. expose 0. red1.
+  unfold pv_session at 1, mk_obj at 1. red1.
+  (* filters = [scheme, recursive, follow-ftp] *)
+  rewrite (tail_unfold 1) by lia. rewrite exec_seq. expose 1.
+  set (first3 := [ (if a_https_only a then FHTTPSOnly else FScheme default_schemes);
+                   FRecursive (a_recursive a) (a_page_requisites a); FFollowFTP (a_follow_ftp a) ]).
+  match goal with |- context [exec O call ?E0 (SAssign 3 ?e)] =>
+    assert (H1 : exists E1, exec O call E0 (SAssign 3 e) = Ok (E1, None) /\ args_at E1 a /\ acc_at E1 first3) end.
+  { remember (pv_args a) as A eqn:HA.
+    assert (G1 : py_getattr A A_https_only = Ok (PBool (a_https_only a))) by (subst; reflexivity).
+    assert (G2 : py_getattr A A_recursive = Ok (PBool (a_recursive a))) by (subst; reflexivity).
+    assert (G3 : py_getattr A A_page_requisites = Ok (PBool (a_page_requisites a))) by (subst; reflexivity).
+    assert (G4 : py_getattr A A_follow_ftp = Ok (PBool (a_follow_ftp a))) by (subst; reflexivity).
+    red1. rewrite G1, G2, G3, G4. red1. unfold first3.
+    destruct (a_https_only a); red1;
+      (eexists; split; [reflexivity|]; split; [unfold args_at, upd; cbn; subst; reflexivity | reflexivity]). }
+  destruct H1 as (E1 & -> & A1 & B1).
+  Ltac chain k lem E A B :=
+    rewrite (tail_unfold k) by lia; rewrite exec_seq;
+    let E' := fresh "E" in let A' := fresh "A" in let B' := fresh "B" in
+    destruct (lem _ _ _ _ A B) as (E' & -> & A' & B').
+  destruct (build_step2 call a E1 _ A1 B1) as (E2 & R2 & A2 & B2).
+  rewrite (tail_unfold 2) by lia. rewrite exec_seq, R2.
+  destruct (build_step3 call a E2 _ A2 B2) as (E3 & R3 & A3 & B3).
+  rewrite (tail_unfold 3) by lia. rewrite exec_seq, R3.
+  destruct (build_step4 call a E3 _ A3 B3) as (E4 & R4 & A4 & B4).
+  rewrite (tail_unfold 4) by lia. rewrite exec_seq, R4.
+  destruct (build_step5 call a E4 _ A4 B4) as (E5 & R5 & A5 & B5).
+  rewrite (tail_unfold 5) by lia. rewrite exec_seq, R5.
+  destruct (build_step6 call a E5 _ A5 B5) as (E6 & R6 & A6 & B6).
+  rewrite (tail_unfold 6) by lia. rewrite exec_seq, R6.
+  destruct (build_step7 call a E6 _ A6 B6) as (E7 & R7 & A7 & B7).
+  rewrite (tail_unfold 7) by lia. rewrite exec_seq, R7.
+  destruct (build_step8 call a E7 _ A7 B7) as (E8 & R8 & A8 & B8).
+  rewrite (tail_unfold 8) by lia. rewrite exec_seq, R8.
+  destruct (build_step9 call a E8 _ A8 B8) as (E9 & R9 & A9 & B9).
+  rewrite (tail_unfold 9) by lia. rewrite exec_seq, R9.
+  (* return filters *)
+  let t := eval vm_compute in (seq_tail 10 bbody) in change (seq_tail 10 bbody) with t.
+  red1. unfold acc_at in B9. rewrite B9. eexists. unfold build_spec, first3.
+  rewrite <- !app_assoc. reflexivity.
+Qed.
+
+Theorem build_url_filters_ok : forall a hs self m, (m >= 1)%nat ->
+  runf m C_URLFiltersSetupTask M__build_url_filters [self; pv_session a hs]
+  = Ok (PList (map pv_filter (build_spec a))).
+Proof.
+  intros a hs self m Hm; fuel m. enter. unfold run_body.
+  cbn [f_nparams List.length Nat.eqb].
+  fold bbody. destruct (build_exec (runf m) a hs self) as (E' & ->). reflexivity.
+Qed.
+
+Lemma in_list_const_strs : forall s l, in_list (PStr s) (map PStr l) = Ok (existsb (str_eqb s) l).
+Proof. exact in_list_strs. Qed.
+
+Theorem span_hosts_filter_ok : forall a hs self m, (m >= 1)%nat ->
+  runf m C_URLFiltersPostURLImportSetupTask M_span_hosts_filter [self; pv_session a hs]
+  = Ok (pv_filter (span_spec_filter a hs)).
+Proof.
+  intros a hs self m Hm; fuel m. enter; unfold URLFiltersPostURLImportSetupTask__span_hosts_filter.
+  unfold pv_session, pv_args, mk_obj, pv_strs. red1.
+  rewrite !in_list_strs. red1.
+  unfold span_spec_filter, pv_filter, mk_obj, filter_cls, filter_fields, s_page_requisites, s_linked_pages.
+  reflexivity.
+Qed.
+
+(* ------------------------------------------------------------------ part F *)
+Lemma forallb_opt : forall (p : filter -> bool) b f, forallb p (opt_filter b f) = if b then p f else true.
+Proof. intros p [] f; cbn; [apply andb_true_r|reflexivity]. Qed.
+
+Lemma regex_spec_absent : forall a rj u, ogiven a || ogiven rj = false -> regex_spec L a rj u = true.
+Proof. intros a rj u H. apply orb_false_iff in H as [H1 H2]. unfold regex_spec. rewrite H1, H2. reflexivity. Qed.
+Lemma directory_spec_absent : forall a rj u, given a || given rj = false -> directory_spec L a rj u = true.
+Proof. intros a rj u H. apply orb_false_iff in H as [H1 H2]. unfold directory_spec. rewrite H1, H2. reflexivity. Qed.
+Lemma filename_spec_absent : forall a rj u, given a || given rj = false -> filename_spec L a rj u = true.
+Proof.
+  intros a rj u H. apply orb_false_iff in H as [H1 H2]. unfold filename_spec. rewrite H1, H2.
+  destruct (nonempty (file_name u)); reflexivity.
+Qed.
+
+Theorem build_spec_meets_scope : forall a u r,
+  forallb (passes u r) (build_spec a) = in_scope_but_span L a u r.
+Proof.
+  intros a u r. unfold build_spec, in_scope_but_span. rewrite !forallb_app, !forallb_opt.
+  cbn [forallb]. unfold passes at 1 2 3. cbn [filter_spec]. rewrite andb_true_r.
+  replace (filter_spec L (if a_https_only a then FHTTPSOnly else FScheme default_schemes) u r)
+    with (if a_https_only a then https_only_spec u else scheme_spec default_schemes u)
+    by (destruct (a_https_only a); reflexivity).
+  unfold passes. cbn [filter_spec].
+  rewrite <- !andb_assoc. repeat f_equal.
+  all: try reflexivity.
+  - unfold tries_spec; destruct (a_tries a =? 0)%Z; reflexivity.
+  - destruct (ogiven (a_accept_regex a) || ogiven (a_reject_regex a)) eqn:E1; [reflexivity|].
+    symmetry; apply regex_spec_absent; exact E1.
+  - destruct (given (a_include_directories a) || given (a_exclude_directories a)) eqn:E2; [reflexivity|].
+    symmetry; apply directory_spec_absent; exact E2.
+  - destruct (given (a_accept a) || given (a_reject a)) eqn:E3; [reflexivity|].
+    symmetry; apply filename_spec_absent; exact E3.
+Qed.
+
+Theorem full_filters_meet_scope : forall a hs u r,
+  all_pass (full_filters a hs) u r = in_scope L a hs u r.
+Proof.
+  intros a hs u r. unfold all_pass, full_filters, in_scope. rewrite forallb_app, build_spec_meets_scope.
+  cbn [forallb]. unfold passes, span_spec_filter. cbn [filter_spec]. rewrite andb_true_r. reflexivity.
+Qed.
+
+Lemma build_spec_no_span : forall a f, List.In f (build_spec a) -> is_span f = false.
+Proof.
+  intros a f H. unfold build_spec, opt_filter in H.
+  repeat (apply in_app_or in H as [H|H]);
+    repeat match goal with
+    | H : List.In _ (if ?b then _ else _) |- _ => destruct b
+    | H : List.In _ (_ :: _) |- _ => destruct H as [<-|H]
+    | H : List.In _ [] |- _ => destruct H
+    end; try reflexivity.
+  destruct (a_https_only a); reflexivity.
+Qed.
+
+Lemma span_count_zero : forall fs, (forall f, List.In f fs -> is_span f = false) -> span_count fs = 0.
+Proof.
+  induction fs as [|f fs IH]; intros H; [reflexivity|]. cbn [span_count].
+  rewrite (H f (or_introl eq_refl)). rewrite IH; [reflexivity|]. intros g Hg. apply H. right; exact Hg.
+Qed.
+
+Lemma span_count_app : forall a b, span_count (a ++ b) = span_count a + span_count b.
+Proof. induction a as [|x a IH]; intros b; cbn [span_count app]; [reflexivity|]. rewrite IH. lia. Qed.
+
+Lemma full_filters_one_span : forall a hs, span_count (full_filters a hs) <= 1.
+Proof.
+  intros a hs. unfold full_filters. rewrite span_count_app, (span_count_zero (build_spec a)).
+  - cbn. lia.
+  - apply build_spec_no_span.
+Qed.
+
+Lemma filter_fails_nil : forall u r fs, forallb (passes u r) fs = true -> List.filter (fails u r) fs = [].
+Proof.
+  intros u r. induction fs as [|f fs IH]; cbn [forallb List.filter]; intros H; [reflexivity|].
+  apply andb_true_iff in H as [H1 H2]. unfold fails at 1. unfold passes in H1. rewrite H1. cbn [negb]. auto.
+Qed.
+
+Lemma filter_fails_some : forall u r fs, forallb (passes u r) fs = false ->
+  exists g, List.In g fs /\ List.In g (List.filter (fails u r) fs).
+Proof.
+  intros u r. induction fs as [|f fs IH]; cbn [forallb List.filter]; intros H; [discriminate|].
+  unfold fails at 1. unfold passes at 1 in H. destruct (filter_spec L f u r); cbn [negb andb] in *.
+  - destruct (IH H) as (g & G1 & G2). exists g. split; [right|]; assumption.
+  - exists f. split; left; reflexivity.
+Qed.
+
+(* the redirect waiver on the filters the builder makes: exactly the span-hosts bullet is dropped *)
+Theorem built_waiver_drops_only_span : forall m a hs u r, (m >= 3)%nat ->
+  all_pass (full_filters a hs) u r || waiver m (full_filters a hs) u r = in_scope_but_span L a u r.
+Proof.
+  intros m a hs u r Hm.
+  rewrite full_filters_meet_scope. unfold in_scope.
+  set (sp := span_hosts_spec L hs (a_span_hosts a) _ _ u r).
+  destruct (in_scope_but_span L a u r) eqn:Hb; cbn [andb orb].
+  - destruct sp eqn:Hs; [reflexivity|].
+    apply (waiver_exact m _ u r Hm (full_filters_one_span a hs)).
+    exists (span_spec_filter a hs). split; [|reflexivity].
+    unfold full_filters. rewrite filter_app, filter_fails_nil by (rewrite build_spec_meets_scope; exact Hb).
+    cbn [List.filter app]. unfold fails, span_spec_filter. cbn [filter_spec]. fold sp. rewrite Hs. reflexivity.
+  - destruct (waiver m (full_filters a hs) u r) eqn:Hw; [|reflexivity]. exfalso.
+    apply (waiver_sound m _ u r Hm) in Hw as (g & Hf & Hsp).
+    rewrite <- build_spec_meets_scope in Hb.
+    destruct (filter_fails_some u r _ Hb) as (g' & G1 & G2).
+    assert (G3 : List.In g' (List.filter (fails u r) (full_filters a hs))).
+    { unfold full_filters. rewrite filter_app. apply in_or_app. left. exact G2. }
+    rewrite Hf in G3. destruct G3 as [<-|[]].
+    rewrite (build_spec_no_span a g G1) in Hsp. discriminate.
+Qed.
+
+(* ---- the composed statement: options -> builder -> demux -> consult = reference predicate ---- *)
+Definition built_filters_pv (a : args) (hs : list str) : pv := PList (map pv_filter (full_filters a hs)).
+
+Theorem consult_built_meets_scope : forall a hs u r ir m, (m >= 5)%nat ->
+  exists reason info,
+    runf m C_FetchRule M_consult_filters [rule (full_filters a hs); pv_urlinfo u; pv_record r; ir]
+    = Ok (PTuple [PBool (if truthy ir then in_scope_but_span L a u r else in_scope L a hs u r); reason; info]).
+Proof.
+  intros a hs u r ir m Hm. rewrite consult_ok by exact Hm. do 2 eexists. repeat f_equal.
+  unfold consult_verdict. destruct (truthy ir); cbn [andb].
+  - apply built_waiver_drops_only_span. lia.
+  - rewrite orb_false_r. apply full_filters_meet_scope.
+Qed.
+
+(* the two setup tasks together: the list the running DemuxURLFilter holds is full_filters *)
+Theorem builder_meets_spec : forall a hs self1 self2 m, (m >= 1)%nat ->
+  runf m C_URLFiltersSetupTask M__build_url_filters [self1; pv_session a hs]
+    = Ok (PList (map pv_filter (build_spec a))) /\
+  runf m C_URLFiltersPostURLImportSetupTask M_span_hosts_filter [self2; pv_session a hs]
+    = Ok (pv_filter (span_spec_filter a hs)) /\
+  map pv_filter (build_spec a) ++ [pv_filter (span_spec_filter a hs)] = map pv_filter (full_filters a hs).
+Proof.
+  intros a hs self1 self2 m Hm. split; [apply build_url_filters_ok; exact Hm|].
+  split; [apply span_hosts_filter_ok; exact Hm|]. unfold full_filters. rewrite map_app. reflexivity.
 Qed.
 
 End WithLib.
